@@ -113,13 +113,14 @@ class C08(object):
             if M.force_household_and_capitalists_sharing_a_portfolio_rule(rng, sp3):
                 spec = sp3
         saver = False
-        if idx % 6 == 3:
+        if idx % 12 == 9:
             # a sector that holds deposits and leaves its money demand to the money market's default, in a zone with both asset
             # markets (which of the two markets is declared first must not matter)
             sp5 = M.gen_spec(rng, n_zones=1, allow_fed=False, maxtime=rng.randint(3, 4))
             if M.force_share_portfolio_with_own_lag(rng, sp5) is not False:
                 c5 = [c_ for c_ in sp5['zones'][0]['countries'] if c_['role'] != 'central'][0]
                 c5['saver'] = {'share': rng.choice([0.3, 0.25]), 'F0': float(rng.randint(20, 60))}
+                sp5['zones'][0]['gov']['money'] = True
                 spec = sp5
                 saver = True
         codes = None
